@@ -21,9 +21,9 @@ CHECKS = {
   text="PeerSelect.tla transcribes extract_response_peers of the three trackers with the code's own range expressions; TLC checks soundness (distinct, in range, requester excluded, count bounds, no out-of-bounds slice, no usize underflow) for every swarm size and limit up to N, every requester position and every pair of random offsets, and must reject an off-by-one variant (negative control). On the real code every (others, limit) grid cell is built through public announces and queried from every position; TLC validates every returned list / set of offer receivers.",
   note="The exhaustive statement over all RNG outcomes is about the TLA+ transcription; on the real code RNG outcomes are sampled. " + TB),
  "C04": dict(
-  technique="TLC model checking of a lock-granularity concurrent model (linearizability, deadlock freedom) + schedule replay on real threads + linearizability trace validation",
+  technique="TLC model checking of a lock-granularity concurrent model (linearizability, deadlock freedom) + schedule replay on real threads + linearizability trace validation + lock-level trace validation against the same model",
   level="model_checking", ref="5 C04",
-  text="UdpConc.tla models shard/peer-map RwLocks with parking_lot's writer preference (an exclusive acquisition sets the writer bit, then waits for the readers; no reader is admitted meanwhile), Arc counts, per-thread program counters and scrapes as sequences of per-torrent units; TLC explores every interleaving of 3-thread programs (linearization-point ghost state, NoLostAnnounce, NoOrphanWrite, deadlock check), must find the CHANGELOG race when the Arc guard is removed and must find a deadlock when a scrape read-locks its shards recursively. TLC-generated schedules are replayed on the real TorrentMaps by a cooperative scheduler built on a feature-gated tracing RwLock wrapper; real yield points are also explored depth-first, randomly and with free-running threads; TLC checks every execution for linearizability and quiescent state.",
+  text="UdpConc.tla models shard/peer-map RwLocks with parking_lot's writer preference (an exclusive acquisition sets the writer bit, then waits for the readers; no reader is admitted meanwhile), Arc counts, per-thread program counters and scrapes as sequences of per-torrent units; TLC explores every interleaving of 3-thread programs (linearization-point ghost state, NoLostAnnounce, NoOrphanWrite, deadlock check), must find the CHANGELOG race when the Arc guard is removed and must find a deadlock when a scrape read-locks its shards recursively. TLC-generated schedules are replayed on the real TorrentMaps by a cooperative scheduler built on a feature-gated tracing RwLock wrapper; real yield points are also explored depth-first, randomly and with free-running threads; TLC checks every execution for linearizability and quiescent state, and every controlled execution is additionally validated at lock granularity against UdpConc itself (UdpConc_Trace: each acquisition seen by the wrapper is the model action that performs it; a mismatch is reported as model drift, not as a verdict).",
   note="Interleavings inside a critical section and memory-model effects below lock granularity are out of scope; cleaning is a sequence of per-torrent atomic units. " + TB),
  "C05": dict(
   technique="TLC model checking of ConnId.tla + boundary-grid replay on the real ConnectionValidator validated by TLC",
